@@ -45,12 +45,30 @@ import typing
 from vf import c12_fsmodel as fsm
 from vf.core import Ctx, HarnessError, stable_hash
 
-MODES = (0o444, 0o644, 0o600)
+# 0o464 / 0o446: owner-write clear while a group/other write bit is set - "somebody may write" is not "the owner may"
+MODES = (0o444, 0o644, 0o600, 0o464, 0o446)
 GEN_SUPPORT = ("as-needed", "never", "only")
+# "prog"/"progarg": --pp-run-program <script in the sandbox> [--pp-run-program-arg=tagged]; the script appends one marker
+# line to the file it is given (ExternalProgramEditInPlace, runs after the file is written and before SetFileMode)
 PPS: typing.Dict[str, typing.Tuple[str, ...]] = {
     "none": (),
     "trim": ("--pp-trim-trailing-whitespace",),
     "limit0": ("--pp-max-emptylines", "0"),
+    "prog": ("--pp-run-program", "<PROG>"),
+    "progarg": ("--pp-run-program", "<PROG>", "--pp-run-program-arg=tagged"),
+}
+PROGRAM = """#!/bin/sh
+# usage: c12_pp.sh [TAG] FILE  - deterministic in-place edit: append one marker line
+if [ $# -ge 2 ]; then tag="$1"; f="$2"; else tag="untagged"; f="$1"; fi
+printf '/* c12-pp %s */\n' "$tag" >> "$f"
+"""
+# The full product (5 modes x 5 post-processors x 12) has 300 events and a graph of several thousand states per model;
+# thorough explores three sub-alphabets ("families") completely instead, each to closure.  Quick explores its selection
+# of each family separately as well, so that every history quick runs is a history thorough runs.
+FAMILIES: typing.Dict[str, typing.Tuple[typing.Tuple[int, ...], typing.Tuple[str, ...]]] = {
+    "A-linepp": ((0o444, 0o644, 0o600), ("none", "trim", "limit0")),
+    "B-modes": (MODES, ("none",)),
+    "C-program": ((0o444, 0o644), ("none", "prog", "progarg")),
 }
 MODELS: typing.Dict[str, typing.Dict[str, typing.Any]] = {
     "c": {"lang": "c", "plain": False, "gs": GEN_SUPPORT},
@@ -96,16 +114,38 @@ def all_events() -> typing.List[Event]:
 EVENTS: typing.Dict[str, Event] = {e.eid: e for e in all_events()}
 
 
+def in_family(e: Event, fam: str) -> bool:
+    modes, pps = FAMILIES[fam]
+    return e.mode in modes and e.pp in pps
+
+
 def is_core(e: Event, model: str) -> bool:
-    """Quick core, 24 events for c/py: every code path (type files, support files, both; overwrite gate both ways;
-    read-only and writable results; with and without an explicit line post-processor).  For the cpp model (support-only
-    events) 16: with serialization support (template + plain file) and without (the plain file alone, so that the
-    gate in _copy_header is the first one a run meets)."""
-    if e.mode not in (0o444, 0o644) or e.pp not in ("none", "limit0"):
-        return False
-    if MODELS[model]["gs"] == ("only",):
-        return e.gs == "only"
-    return (e.omit, e.gs) in ((False, "as-needed"), (True, "as-needed"), (False, "only"))
+    """Quick core (c/py: 18 events, cpp: 14): every code path - type files, support files, both; overwrite gate both
+    ways; read-only and writable results; an explicit line post-processor; one mode with owner-write clear but group
+    write set; the external program with and without an extra argument."""
+    support_only = MODELS[model]["gs"] == ("only",)
+    k = (e.mode, e.no_overwrite, e.omit, e.gs, e.pp)
+    if e.pp == "none" and e.mode in (0o444, 0o644):
+        if support_only:
+            return e.gs == "only"
+        return (e.omit, e.gs) in ((False, "as-needed"), (True, "as-needed"), (False, "only"))
+    if support_only:
+        return k in (
+            (0o644, False, False, "only", "limit0"),
+            (0o444, True, True, "only", "limit0"),
+            (0o464, False, False, "only", "none"),
+            (0o464, False, True, "only", "none"),
+            (0o644, False, False, "only", "prog"),
+            (0o444, False, True, "only", "progarg"),
+        )
+    return k in (
+        (0o644, False, False, "as-needed", "limit0"),
+        (0o444, True, False, "only", "limit0"),
+        (0o444, False, True, "as-needed", "limit0"),
+        (0o464, False, False, "as-needed", "none"),
+        (0o644, False, False, "as-needed", "prog"),
+        (0o444, False, False, "only", "progarg"),
+    )
 
 
 EXTRA_LEVEL_BUDGET = 25_000
@@ -118,6 +158,7 @@ class _G:
     scratch: pathlib.Path
     dsdl: pathlib.Path
     plain: pathlib.Path
+    prog: pathlib.Path
     images: pathlib.Path
     work: pathlib.Path
     ready = False
@@ -141,6 +182,10 @@ def _setup(scratch: pathlib.Path) -> None:
     with open(_G.plain, "w", encoding="utf-8", newline="") as f:
         f.write(PLAIN_RESOURCE)
     os.chmod(_G.plain, 0o640)
+    _G.prog = res / "c12_pp.sh"
+    with open(_G.prog, "w", encoding="utf-8", newline="") as f:
+        f.write(PROGRAM)
+    os.chmod(_G.prog, 0o755)
     _G.images = scratch / "images"
     _G.work = scratch / "work"
     for d in (_G.images, _G.work):
@@ -174,7 +219,7 @@ def _argv(model: str, ev: Event) -> typing.List[str]:
     if ev.omit:
         a.append("--omit-serialization-support")
     a += ["--generate-support", ev.gs]
-    a += list(PPS[ev.pp])
+    a += [str(_G.prog) if x == "<PROG>" else x for x in PPS[ev.pp]]
     a.append(str(_G.dsdl / "ns"))
     return a
 
@@ -275,7 +320,9 @@ def build_init(model: str, init: str, root: pathlib.Path) -> None:
 def _pre_kind(pre_f: fsm.Snapshot, p: str) -> str:
     if p not in pre_f:
         return "absent"
-    return "rw" if pre_f[p][1] & 0o200 else "ro"
+    if pre_f[p][1] & 0o200:
+        return "rw"
+    return "ro_gw" if pre_f[p][1] & 0o022 else "ro"
 
 
 def _change(pre_f: fsm.Snapshot, post_f: fsm.Snapshot, p: str) -> typing.Optional[str]:
@@ -387,8 +434,12 @@ def evaluate(
     if ok:
         if not existing:
             stats["ok_nothing_in_the_way"] += 1
-        if any(_pre_kind(pre_f, p) == "ro" for p in existing):
+        if any(_pre_kind(pre_f, p) in ("ro", "ro_gw") for p in existing):
             stats["ok_overwrote_read_only"] += 1
+        if any(_pre_kind(pre_f, p) == "ro_gw" for p in existing):
+            stats["ok_overwrote_owner_ro_but_group_or_other_writable"] += 1
+        if ev.pp in ("prog", "progarg") and any(pre_f[p][0] != targets[p][0] for p in existing):
+            stats["ok_program_run_over_other_content"] += 1
         if any(_pre_kind(pre_f, p) == "rw" for p in existing):
             stats["ok_overwrote_writable"] += 1
         if any(pre_f[p][0] != targets[p][0] for p in existing):
